@@ -109,3 +109,225 @@ Proof.
   set (p3 := momentR 3 px) in *. set (p4 := momentR 4 px) in *.
   do 2 f_equal; [field; exact Hd|]. f_equal; [field; exact Hd|]. f_equal. field. exact Hd.
 Qed.
+
+(* ---- the pixel lists of a radius --------------------------------------------------- *)
+Lemma in_quad_idx g a b : In (a, b) (quad_idx g) <-> (a < g_Qh g /\ b < g_Qw g)%nat.
+Proof.
+  unfold quad_idx. rewrite in_flat_map. split.
+  - intros [a' [Ha Hb]]. apply in_map_iff in Hb. destruct Hb as [b' [E Hb]].
+    injection E as -> ->. apply in_seq in Ha, Hb. lia.
+  - intros [Ha Hb]. exists a. split; [apply in_seq; lia|]. apply in_map. apply in_seq. lia.
+Qed.
+
+Lemma Forall_flat_map_quad (P : pixelR -> Prop) g (f : nat * nat -> list pixelR) :
+  (forall a b, (a < g_Qh g)%nat -> (b < g_Qw g)%nat -> Forall P (f (a, b))) ->
+  Forall P (flat_map f (quad_idx g)).
+Proof.
+  intros H. apply Forall_forall. intros t Ht. apply in_flat_map in Ht.
+  destruct Ht as [[a b] [Hab Ht]]. apply in_quad_idx in Hab. destruct Hab as [Ha Hb].
+  specialize (H a b Ha Hb). rewrite Forall_forall in H. apply H. exact Ht.
+Qed.
+
+Notation cos1R := (cos1 Rops sqrtR).
+Notation wlR := (wl Rops sqrtR).
+Notation wuR := (wu Rops sqrtR).
+
+Lemma pixels_nearest_forall (P : pixelR -> Prop) g wq dq r :
+  (forall a b, (a < g_Qh g)%nat -> (b < g_Qw g)%nat -> bin Nearest g a b = r ->
+               P (wq a b, cos1R g a b, dq a b)) ->
+  Forall P (pixels Rops sqrtR Nearest g wq dq r).
+Proof.
+  intros H. unfold pixels. apply Forall_flat_map_quad. intros a b Ha Hb.
+  destruct (Nat.eqb_spec (bin Nearest g a b) r) as [E|E]; [|constructor].
+  constructor; [|constructor]. apply H; assumption.
+Qed.
+
+Lemma pixels_linear_forall (P : pixelR -> Prop) g wq dq r :
+  (forall a b, (a < g_Qh g)%nat -> (b < g_Qw g)%nat -> bin Linear g a b = r ->
+               P (wlR g a b * wq a b, cos1R g a b, wlR g a b * dq a b)) ->
+  (forall a b, (a < g_Qh g)%nat -> (b < g_Qw g)%nat -> S (bin Linear g a b) = r ->
+               P (wuR g a b * wq a b, cos1R g a b, wuR g a b * dq a b)) ->
+  Forall P (pixels Rops sqrtR Linear g wq dq r).
+Proof.
+  intros H1 H2. unfold pixels. apply Forall_app. split; apply Forall_flat_map_quad; intros a b Ha Hb.
+  - destruct (Nat.eqb_spec (bin Linear g a b) r) as [E|E]; [|constructor].
+    constructor; [|constructor]. apply H1; assumption.
+  - destruct (Nat.eqb_spec (S (bin Linear g a b)) r) as [E|E]; [|constructor].
+    constructor; [|constructor]. apply H2; assumption.
+Qed.
+
+(* coefficient functions of the radius; for 'linear' they must not depend on it *)
+Definition radial_const (meth : method) (c : nat -> R) : Prop :=
+  match meth with Nearest => True | Linear => forall r r', c r = c r' end.
+
+(* the quadrant data are the quadrant weights times the angular model *)
+Definition quadrant_exact (meth : method) g (wq dq : nat -> nat -> R) (c0 c1 c2 : nat -> R) : Prop :=
+  forall a b, (a < g_Qh g)%nat -> (b < g_Qw g)%nat ->
+    dq a b = wq a b * (c0 (bin meth g a b) + c1 (bin meth g a b) * cos1R g a b
+                       + c2 (bin meth g a b) * cos1R g a b ^ 2).
+
+Lemma pixels_exact meth g wq dq c0 c1 c2 r :
+  quadrant_exact meth g wq dq c0 c1 c2 ->
+  radial_const meth c0 -> radial_const meth c1 -> radial_const meth c2 ->
+  Forall (exact_px (c0 r) (c1 r) (c2 r)) (pixels Rops sqrtR meth g wq dq r).
+Proof.
+  intros HQ K0 K1 K2. destruct meth.
+  - apply pixels_nearest_forall. intros a b Ha Hb E. unfold exact_px.
+    rewrite (HQ a b Ha Hb), E. reflexivity.
+  - cbn in K0, K1, K2. apply pixels_linear_forall; intros a b Ha Hb E; unfold exact_px;
+      rewrite (HQ a b Ha Hb);
+      rewrite (K0 (bin Linear g a b) r), (K1 (bin Linear g a b) r), (K2 (bin Linear g a b) r);
+      cbn [Rops fmul]; ring.
+Qed.
+
+Definition zero_fun : nat -> R := fun _ => 0.
+
+Theorem coeffs_exact_quadrant meth g wq dq c0 c1 c2 N r :
+  quadrant_exact meth g wq dq c0 c1 c2 ->
+  radial_const meth c0 -> radial_const meth c1 -> radial_const meth c2 ->
+  (N = 1%nat /\ c1 = zero_fun /\ c2 = zero_fun \/ N = 2%nat /\ c2 = zero_fun \/ N = 3%nat) ->
+  hdet N (pixels Rops sqrtR meth g wq dq r) <> 0 ->
+  coeffsR N (pixels Rops sqrtR meth g wq dq r) = Some (firstn N [c0 r; c1 r; c2 r]).
+Proof.
+  intros HQ K0 K1 K2 HN Hd.
+  pose proof (pixels_exact meth g wq dq c0 c1 c2 r HQ K0 K1 K2) as Hx.
+  destruct HN as [ [-> [-> ->] ] | [ [-> ->] | -> ] ]; cbn [firstn].
+  - apply coeffs_exact_1; assumption.
+  - apply coeffs_exact_2; assumption.
+  - apply coeffs_exact_3; assumption.
+Qed.
+
+(* ---- folded data of an exact-model image -------------------------------------------- *)
+Notation foldR := (fold_image 0 Rplus).
+Notation gpixR := (gpix R 0).
+
+Lemma gpix_factor (X Wf : list (list R)) c1 c2 i j v :
+  (c1 && c2 = true -> px 0 X i j = px 0 Wf i j * v) ->
+  gpixR X c1 c2 i j = gpixR Wf c1 c2 i j * v.
+Proof. unfold gpix. destruct (c1 && c2); intros H; [apply H; reflexivity|ring]. Qed.
+
+Lemma fold_factor_even h w row col rmax N (X Wf : list (list R)) (F : nat -> nat -> R) a b :
+  (row < h)%nat -> (col < w)%nat ->
+  let g := quad_geom h w row col rmax false N in
+  (forall i j, (i < h)%nat -> (j < w)%nat -> px 0 X i j = px 0 Wf i j * F (dist i row) (dist j col)) ->
+  (a < g_Qh g)%nat -> (b < g_Qw g)%nat ->
+  px 0 (foldR g X) a b = px 0 (foldR g Wf) a b * F a b.
+Proof.
+  intros Hr Hc g HX Ha Hb. subst g.
+  rewrite !(fold_spec_even R 0 Rplus Rplus_0_l Rplus_0_r) by assumption.
+  unfold spec_even.
+  rewrite (gpix_factor X Wf _ _ (row - a) (col - b) (F a b)).
+  2:{ intros G. rewrite HX by lia. do 2 f_equal; unfold dist.
+      - destruct (Nat.leb_spec (row - a) row); lia.
+      - destruct (Nat.leb_spec (col - b) col); lia. }
+  rewrite (gpix_factor X Wf _ _ (row - a) (col + b) (F a b)).
+  2:{ intros G. rewrite HX by lia. do 2 f_equal; unfold dist.
+      - destruct (Nat.leb_spec (row - a) row); lia.
+      - destruct (Nat.leb_spec (col + b) col); lia. }
+  rewrite (gpix_factor X Wf _ _ (row + a) (col - b) (F a b)).
+  2:{ intros G. rewrite HX by lia. do 2 f_equal; unfold dist.
+      - destruct (Nat.leb_spec (row + a) row); lia.
+      - destruct (Nat.leb_spec (col - b) col); lia. }
+  rewrite (gpix_factor X Wf _ _ (row + a) (col + b) (F a b)).
+  2:{ intros G. rewrite HX by lia. do 2 f_equal; unfold dist.
+      - destruct (Nat.leb_spec (row + a) row); lia.
+      - destruct (Nat.leb_spec (col + b) col); lia. }
+  ring.
+Qed.
+
+Lemma fold_factor_odd h w row col rmax N (X Wf : list (list R)) (F : nat -> nat -> R) a b :
+  (row < h)%nat -> (col < w)%nat ->
+  let g := quad_geom h w row col rmax true N in
+  (forall i j, (row - g_y0 g <= i)%nat -> (i < row - g_y0 g + g_Qh g)%nat -> (j < w)%nat ->
+     px 0 X i j = px 0 Wf i j * F (i - (row - g_y0 g))%nat (dist j col)) ->
+  (a < g_Qh g)%nat -> (b < g_Qw g)%nat ->
+  px 0 (foldR g X) a b = px 0 (foldR g Wf) a b * F a b.
+Proof.
+  intros Hr Hc g HX Ha Hb.
+  pose proof (fold_spec_odd R 0 Rplus Rplus_0_l Rplus_0_r h w row col rmax N X a b Hr Hc) as E1.
+  pose proof (fold_spec_odd R 0 Rplus Rplus_0_l Rplus_0_r h w row col rmax N Wf a b Hr Hc) as E2.
+  cbv zeta in E1, E2. fold g in E1, E2. rewrite (E1 Ha Hb), (E2 Ha Hb).
+  unfold spec_odd.
+  rewrite (gpix_factor X Wf _ _ (row - g_y0 g + a) (col - b) (F a b)).
+  2:{ intros G. rewrite HX by lia. do 2 f_equal; [lia|]. unfold dist.
+      destruct (Nat.leb_spec (col - b) col); lia. }
+  rewrite (gpix_factor X Wf _ _ (row - g_y0 g + a) (col + b) (F a b)).
+  2:{ intros G. rewrite HX by lia. do 2 f_equal; [lia|]. unfold dist.
+      destruct (Nat.leb_spec (col + b) col); lia. }
+  ring.
+Qed.
+
+(* ---- end to end ---------------------------------------------------------------------- *)
+(* the angular model at quadrant pixel [a][b]: sum_n c_n(bin) x^n, x = cos(theta)
+   (odd orders present) or cos^2(theta) (even orders only) *)
+Definition angular (meth : method) g (c0 c1 c2 : nat -> R) (a b : nat) : R :=
+  c0 (bin meth g a b) + c1 (bin meth g a b) * cos1R g a b + c2 (bin meth g a b) * cos1R g a b ^ 2.
+
+(* the image equals the angular model about the origin (on the rows that the
+   analysis uses, for odd orders) *)
+Definition model_image (meth : method) g (c0 c1 c2 : nat -> R) (IM : list (list R)) : Prop :=
+  if g_odd g then
+    forall i j, (g_row g - g_y0 g <= i)%nat -> (i < g_row g - g_y0 g + g_Qh g)%nat -> (j < g_w g)%nat ->
+      px 0 IM i j = angular meth g c0 c1 c2 (i - (g_row g - g_y0 g)) (dist j (g_col g))
+  else
+    forall i j, (i < g_h g)%nat -> (j < g_w g)%nat ->
+      px 0 IM i j = angular meth g c0 c1 c2 (dist i (g_row g)) (dist j (g_col g)).
+
+Lemma px_ones h w i j : (i < h)%nat -> (j < w)%nat -> px 0 (ones Rops h w) i j = 1.
+Proof.
+  intros Hi Hj. unfold px, row, ones. cbn [Rops f1].
+  rewrite nth_indep with (d' := repeat 1 w) by (rewrite repeat_length; exact Hi).
+  rewrite nth_repeat. rewrite nth_indep with (d' := 1) by (rewrite repeat_length; exact Hj).
+  apply nth_repeat.
+Qed.
+
+Lemma nth_map_seq_opt {Y : Type} (f : nat -> option Y) n r :
+  (r < n)%nat -> nth r (map f (seq 0 n)) None = f r.
+Proof.
+  intros H. rewrite (nth_map_gen f (seq 0 n) r None 0%nat) by (rewrite seq_length; exact H).
+  rewrite seq_nth by exact H. reflexivity.
+Qed.
+
+Theorem distr_exact h w row col rmax odd N meth use_sin (W : option (list (list R))) IM c0 c1 c2 r :
+  (row < h)%nat -> (col < w)%nat -> wf h w IM ->
+  (forall Wt, W = Some Wt -> wf h w Wt) ->
+  let g := quad_geom h w row col rmax odd N in
+  model_image meth g c0 c1 c2 IM ->
+  radial_const meth c0 -> radial_const meth c1 -> radial_const meth c2 ->
+  (N = 1%nat /\ c1 = zero_fun /\ c2 = zero_fun \/ N = 2%nat /\ c2 = zero_fun \/ N = 3%nat) ->
+  (r <= rmax)%nat ->
+  hdet N (distr_pixels Rops sqrtR meth g use_sin W IM r) <> 0 ->
+  nth r (distr_cos Rops sqrtR meth g use_sin W IM) None = Some (firstn N [c0 r; c1 r; c2 r]).
+Proof.
+  intros Hr Hc HIM HW g HM K0 K1 K2 HN Hrr Hd.
+  assert (Gh : g_h g = h) by apply qg_h. assert (Gw : g_w g = w) by apply qg_w.
+  assert (Grow : g_row g = row) by apply qg_row. assert (Gcol : g_col g = col) by apply qg_col.
+  assert (Grm : g_rmax g = rmax) by apply qg_rmax. assert (GN : g_N g = N) by apply qg_N.
+  assert (Godd : g_odd g = odd) by apply qg_odd.
+  unfold distr_cos. cbv zeta. rewrite Grm, GN. rewrite nth_map_seq_opt by lia.
+  unfold distr_pixels in Hd.
+  apply coeffs_exact_quadrant; try assumption.
+  (* the quadrant data factor through the weights *)
+  intros a b Ha Hb. fold (angular meth g c0 c1 c2 a b).
+  unfold QW, QD. cbv zeta.
+  set (Wf := match W with Some Wt => Wt | None => ones Rops (g_h g) (g_w g) end).
+  set (X := match W with Some Wt => imul Rops Wt IM | None => IM end).
+  assert (HX : forall i j, (i < h)%nat -> (j < w)%nat -> px 0 X i j = px 0 Wf i j * px 0 IM i j).
+  { intros i j Hi Hj. unfold X, Wf. destruct W as [Wt|].
+    - unfold imul. rewrite (px_imap2 0 (fmul Rops) (n:=h) (m:=w)); try assumption; [reflexivity|].
+      apply HW. reflexivity.
+    - rewrite Gh, Gw, px_ones by assumption. ring. }
+  assert (HF : px 0 (foldR g X) a b = px 0 (foldR g Wf) a b * angular meth g c0 c1 c2 a b).
+  { unfold model_image in HM. rewrite Godd in HM. unfold g in *. destruct odd.
+    - apply fold_factor_odd; try assumption.
+      intros i j Hi1 Hi2 Hj. rewrite qg_Qh, qg_y0 in Hi2. rewrite qg_y0 in Hi1.
+      rewrite HX by (try assumption; lia).
+      rewrite Grow, Gcol, Gw in HM. rewrite HM; [reflexivity| | |assumption].
+      + rewrite qg_y0. exact Hi1.
+      + rewrite qg_Qh, qg_y0. exact Hi2.
+    - apply fold_factor_even; try assumption.
+      intros i j Hi Hj. rewrite HX by assumption.
+      rewrite Grow, Gcol, Gh, Gw in HM. rewrite HM by assumption. reflexivity. }
+  cbn [Rops f0 fadd fmul]. fold Wf. fold X. rewrite HF.
+  destruct use_sin; cbn [Rops fmul]; ring.
+Qed.
